@@ -53,7 +53,23 @@ class Opaque(object):
 _OPAQUE = [Opaque(0), Opaque('one'), object(), (Opaque(3), 3), Opaque(None), (4, Opaque('four')),
            Opaque(6), Opaque(7), object(), Opaque(9), Opaque(10), Opaque(11)] + [Opaque(i) for i in range(12, 40)]
 
+_NUMEQ = itertools.count()
+
+
+def _numeq(i):
+    """Numbers that are EQUAL but of different types from one mention to the next: 1, 1.0, True are the
+    same dictionary key; a structure built from a list that says 1 and a relation that says 1.0 has one
+    state."""
+    k = next(_NUMEQ) % 3
+    if k == 1:
+        return float(i)
+    if k == 2 and i in (0, 1):
+        return bool(i)
+    return i
+
+
 NAMINGS = {
+    'numeq': _numeq,
     'int': lambda i: i,
     'str': lambda i: 's%d' % i,
     'revint': lambda i: 100 - i,
@@ -90,11 +106,14 @@ def present(n, edges, how, naming='int'):
         nodes = [v for v in nodes if v not in touched]
         es = es[len(es) // 2:] + es[:len(es) // 2]
     elif how == 4:
-        nodes = nodes[::2] + nodes[1::2]
+        # a container may mention a node more than once
+        nodes = nodes[::2] + nodes[1::2] + nodes[:2]
         es = sorted(es, key=lambda e: (-e[0], e[1]))
     elif how == 5:
+        # ... and an edge more than once
         nodes = list(reversed(nodes[::2])) + nodes[1::2]
         es = sorted(es, key=lambda e: ((e[0] * 7 + e[1] * 3) % 5, e))
+        es = es + es[::3]
     V = [nm(v) for v in nodes]
     E = [(nm(a), nm(b)) for (a, b) in es]
     return V, E
